@@ -41,23 +41,31 @@ pub struct Ident {
 thread_local! {
     static IDENTS: std::cell::RefCell<HashMap<(u32, u32), std::rc::Rc<Ident>>> = std::cell::RefCell::new(HashMap::new());
 }
+fn make_ident(id: u32, size: u32) -> Ident {
+    // content unique per (id, byte index): high nibble = id, low = index, plus id-specific salt
+    let bytes: Vec<u8> = if size > 256 {
+        // larger chunks: pseudo-random, so that no shifted copy of a chunk looks like the chunk (the formula below
+        // has period 4096)
+        let mut v = Vec::with_capacity(size as usize);
+        SplitMix(((id as u64) << 32) ^ size as u64 ^ 0xC03).fill(&mut v, size as usize);
+        v
+    } else {
+        (0..size).map(|i| ((id as u8 + 1) << 4) ^ (i as u8).wrapping_mul(7) ^ ((i >> 4) as u8)).collect()
+    };
+    let mut b = bytes;
+    if size as usize >= 4 {
+        b[0] = id as u8;
+        b[1] = (id >> 8) as u8;
+    }
+    let verified = bitar::Chunk::from(b.clone()).verify();
+    Ident { bytes: b, verified }
+}
 fn ident(id: u32, size: u32) -> std::rc::Rc<Ident> {
-    IDENTS.with(|m| {
-        m.borrow_mut()
-            .entry((id, size))
-            .or_insert_with(|| {
-                // content unique per (id, byte index): high nibble = id, low = index, plus id-specific salt
-                let bytes: Vec<u8> = (0..size).map(|i| ((id as u8 + 1) << 4) ^ (i as u8).wrapping_mul(7) ^ ((i >> 4) as u8)).collect();
-                let mut b = bytes.clone();
-                if size as usize >= 4 {
-                    b[0] = id as u8;
-                    b[1] = (id >> 8) as u8;
-                }
-                let verified = bitar::Chunk::from(b.clone()).verify();
-                std::rc::Rc::new(Ident { bytes: b, verified })
-            })
-            .clone()
-    })
+    if size > 5000 {
+        // megabytes each: not cached
+        return std::rc::Rc::new(make_ident(id, size));
+    }
+    IDENTS.with(|m| m.borrow_mut().entry((id, size)).or_insert_with(|| std::rc::Rc::new(make_ident(id, size))).clone())
 }
 
 pub struct LayoutRun {
@@ -261,6 +269,60 @@ fn shuffled_layout_strategy() -> impl Strategy<Value = Layout> {
     })
 }
 
+/// Layouts with chunks above 1 MiB (and above tokio's 2 MiB file buffer) that move by less than their own size: the
+/// executor has to behave like memmove for a chunk whose destination overlaps its own old location.
+fn big_layout_strategy() -> impl Strategy<Value = Layout> {
+    (
+        prop::collection::vec(prop_oneof![2 => 1u32..=5000, 3 => 1_048_577u32..=3_200_000], 3..=5),
+        1u32..=70_000,
+        prop::collection::vec(1u8..5, 1..=4),
+        prop::collection::vec((0u8..4, any::<u16>(), any::<u16>(), 0u8..5), 1..=3),
+        layout_hash_len(),
+    )
+        .prop_map(|(mut sizes, small, prior, edits, hash_len)| {
+            // identity 0 is always small: inserting or removing it shifts what follows by less than a big chunk's size
+            sizes.insert(0, small);
+            let k = sizes.len() as u8;
+            let prior: Vec<u8> = prior.into_iter().map(|p| p % k).collect();
+            let mut target = prior.clone();
+            for (kind, a, b, v) in edits {
+                match kind {
+                    0 => target.insert(idx(a, target.len() + 1), 0),
+                    1 if !target.is_empty() => {
+                        target.remove(idx(a, target.len()));
+                    }
+                    2 if !target.is_empty() => {
+                        let (i, j) = (idx(a, target.len()), idx(b, target.len()));
+                        target.swap(i, j);
+                    }
+                    _ => target.insert(idx(a, target.len() + 1), v % k),
+                }
+            }
+            Layout { sizes, prior, target, hash_len }
+        })
+}
+
+fn check_big_layout(l: &Layout, rec: &mut CaseRec) -> Result<(), String> {
+    let r = check_layout(l, rec);
+    // a chunk > 1 MiB whose new place overlaps its own old place
+    let mut po = vec![];
+    let mut o = 0u64;
+    for &p in &l.prior {
+        po.push((p, o));
+        o += l.sizes[p as usize] as u64;
+    }
+    let mut o = 0u64;
+    let mut self_overlap = false;
+    for &t in &l.target {
+        let n = l.sizes[t as usize] as u64;
+        self_overlap |= n > (1 << 20) && po.iter().any(|(p, at)| *p == t && *at != o && *at < o + n && o < *at + n);
+        o += n;
+    }
+    rec.class_if(self_overlap, "chunk_over_1MiB_moved_by_less_than_its_size");
+    rec.nontrivial = self_overlap;
+    r
+}
+
 fn scenario_case(s: &Scenario, rec: &mut CaseRec) -> Result<(), String> {
     if !s.cfg.chunker.is_valid() {
         rec.excluded = Some("invalid_config".into());
@@ -304,7 +366,7 @@ impl Prop for C03 {
     }
     fn meta(&self, _tier: Tier) -> Meta {
         Meta {
-            rule: "variant 'exh': bounded-exhaustive layouts — 3 chunk identities with sizes from {1,2,3} (27 assignments) plus a junk identity (only in the prior output) and an archive-only identity (only in the target); prior and target are ALL sequences of <= N slots (N=4 quick, N=5 thorough) over 4 symbols; indexes are built through ChunkIndex::add_chunk from non-overlapping tilings, then the real planner/executor runs on an instrumented in-memory output and the remaining chunks are fed as from the archive. 'rand'/'shuf': random layouts of up to 60 slots over up to 12 identities. 'scen': real content — prior output = edit-script derivative of the source, scanned by bitar's own chunker, all small configs, hash lengths 8..64, prior shorter/equal/longer, plus seeds. 'l2': the same scenarios through the real `bita clone --seed-output` (regular files and, through the hook, the block-device path), local and HTTP archives. Oracles: final bytes == target (resized), the public reorder plan interpreted by the independent cell interpreter R4 never reads a destroyed chunk, and no reusable chunk stays in the clone index. Non-trivial = at least one copy whose destination overlaps another chunk's location (exh/rand/shuf) or at least one chunk moved in place (scen); distinct by Blake2 of the canonical case.".into(),
+            rule: "variant 'exh': bounded-exhaustive layouts — 3 chunk identities with sizes from {1,2,3} (27 assignments) plus a junk identity (only in the prior output) and an archive-only identity (only in the target); prior and target are ALL sequences of <= N slots (N=4 quick, N=5 thorough) over 4 symbols; indexes are built through ChunkIndex::add_chunk from non-overlapping tilings, then the real planner/executor runs on an instrumented in-memory output and the remaining chunks are fed as from the archive. 'rand'/'shuf': random layouts of up to 60 slots over up to 12 identities, hash lengths 8..64. 'bigmove': layouts of <= 7 slots with chunks of 1-3.2 MB (above the 1 MiB read size and tokio's 2 MiB file buffer) shifted by a small chunk inserted or removed in front of them, so that a chunk's destination overlaps its own old location. 'scen': real content — prior output = edit-script derivative of the source, scanned by bitar's own chunker, all small configs, hash lengths 8..64, prior shorter/equal/longer, plus seeds. 'l2': the same scenarios through the real `bita clone --seed-output` (regular files and, through the hook, the block-device path), local and HTTP archives. Oracles: final bytes == target (resized), the public reorder plan interpreted by the independent cell interpreter R4 never reads a destroyed chunk, and no reusable chunk stays in the clone index. Non-trivial = at least one copy whose destination overlaps another chunk's location (exh/rand/shuf) or at least one chunk moved in place (scen); distinct by Blake2 of the canonical case.".into(),
             assumptions: vec!["indexes handed to the planner are non-overlapping tilings (the only shape a scan of the output can produce)".into()],
             ..Meta::default()
         }
@@ -344,6 +406,7 @@ impl Prop for C03 {
         }
         cx.run_prop("rand", t.pick(300_000, 4_000_000), random_layout_strategy(), check_layout);
         cx.run_prop("shuf", t.pick(300_000, 4_000_000), shuffled_layout_strategy(), check_layout);
+        cx.run_prop("bigmove", t.pick(192, 4000), big_layout_strategy(), check_big_layout);
         cx.run_prop("scen", t.pick(24_000, 400_000), inplace_scenario_strategy(), scenario_case);
         // the same scenarios through the real CLI (`bita clone --seed-output`): clone_cmd.rs has its own orchestration
         // of scan, reorder, seeds and resize, which the L1 mirror only imitates
@@ -356,6 +419,7 @@ impl Prop for C03 {
         match variant {
             "l2" => crate::props::l2scen::replay_l2("C03", case, &mut rec),
             "scen" => scenario_case(&serde_json::from_value(case.clone()).map_err(|e| e.to_string())?, &mut rec),
+            "bigmove" => check_big_layout(&serde_json::from_value(case.clone()).map_err(|e| e.to_string())?, &mut rec),
             _ => check_layout(&serde_json::from_value(case.clone()).map_err(|e| e.to_string())?, &mut rec),
         }
     }
